@@ -70,11 +70,13 @@ class Impl:
             coords = ((coords + 2.9) % 5.8) - 2.9
         if energy is None:
             energy = float(np.sin(self.count * 1.7) * 3.0)
-        self.tok[coords.tobytes() + np.float64(energy).tobytes()] = t
+        self.tok[coords.tobytes() + np.float64(energy).tobytes() + repr(coords.shape).encode()] = t
         return t, coords, energy
 
     def token_of(self, coords, energy) -> str:
-        return self.tok.get(np.asarray(coords, dtype=float).tobytes() + np.float64(energy).tobytes(), "?")
+        # by value AND shape: a one-dimensional landscape stores (1,) vectors, not 0-d arrays
+        a = np.asarray(coords, dtype=float)
+        return self.tok.get(a.tobytes() + np.float64(energy).tobytes() + repr(a.shape).encode(), "?")
 
     def state(self) -> str:
         k = self.k
@@ -178,7 +180,7 @@ def run_sequences(ctx: Ctx, seqs: list[list[tuple]], label: str, hist=None) -> N
     lines: list[str] = []
     expected: list[tuple[int, int, str, str]] = []   # (seq index, op index, impl state, op line)
     for si, seq in enumerate(seqs):
-        impl = Impl()
+        impl = Impl(dim=1 + si % 3)          # one-, two- and three-dimensional landscapes in turn
         lines.append("new")
         expected.append((si, -1, "ok", "new"))
         for oi, op in enumerate(seq):
@@ -320,7 +322,7 @@ def predicate_history(ops: list[tuple], analyses: bool, rng, surface: str = "fd"
     """the property's own predicate on the real class: counts vs graph, labels 0..n-1, survivor
     data bit-identical to what was last given, order and connections of survivors.  Written from
     the statement with identity tracking, not from the model."""
-    impl = Impl()
+    impl = Impl() if analyses else Impl(dim=1 + len(ops) % 3)
     k = impl.k
     ids: list[int] = []            # identity of the minimum at each index
     last: dict[int, str] = {}      # identity -> token last given
@@ -575,6 +577,8 @@ def predicates(ctx: Ctx) -> None:
             break
     # corpus first: the minimal histories of past failures
     corpus = [
+        ("corpus:one-dimensional-landscape", [("addmin",), ("addmin",), ("addts", 0, 1)]),
+        ("corpus:one-dimensional-landscape-edits", [("addmin",)] * 3 + [("addts", 0, 1), ("addts", 2, 2), ("rmmin", 0)]),
         ("corpus:second-ts-on-pair", [("addmin",), ("addmin",), ("addts", 0, 1), ("addts", 1, 0)]),
         ("corpus:self-loop-remove", [("addmin",), ("addmin",), ("addts", 1, 1), ("addts", 0, 1), ("rmmin", 1)]),
         ("corpus:bulk-remove", [("addmin",)] * 5 + [("addts", 0, 4), ("addts", 1, 3), ("rmminima", [3, 0], True)]),
@@ -583,9 +587,10 @@ def predicates(ctx: Ctx) -> None:
     ]
     for name, ops in corpus:
         r = predicate_history(ops, False, rng)
-        ctx.stats.case({"stream": "predicate-corpus", "name": name}, True)
+        ctx.stats.case({"stream": "predicate-corpus", "name": name, "dimension": 1 + len(ops) % 3}, True)
         if r:
-            ctx.fail(r[0], r[1], {"ops": [_line_of(o) for o in ops], "raw_ops": ops, **r[2]})
+            ctx.fail(r[0], r[1] + f" ({1 + len(ops) % 3}-dimensional landscape)",
+                     {"ops": [_line_of(o) for o in ops], "raw_ops": ops, "analyses": False, **r[2]})
     # removals that name something not stored: counts and numbering stay coherent whatever the call does
     fixed = [[("addmin",), ("addmin",), ("addts", 0, 1)],
              [("addmin",)] * 4 + [("addts", 0, 1), ("addts", 1, 2), ("addts", 2, 2), ("addts", 0, 3)]]
@@ -647,7 +652,7 @@ def replay(ctx: Ctx, data: dict) -> bool:
         if r:
             print(f"  {r[0]}: {r[1]}")
         return r is None
-    r = predicate_history(ops, True, random.Random(1), data.get("surface", "fd"))
+    r = predicate_history(ops, bool(data.get("analyses", True)), random.Random(1), data.get("surface", "fd"))
     if r:
         print(f"  {r[0]}: {r[1]}")
     return r is None
